@@ -144,7 +144,7 @@ CONFIG = {
         "assumptions": [
             "IntIntMap is constructed with capacity >= 1 (no guard in the constructor), load factors 0.1..4; IntKeyMap values are non-nil and comparable",
             "the empty string is not storable in StringSet (consistent across all its methods)",
-            "enumerators are consumed while the structure is not modified and never past the end; single goroutine",
+            "enumerators are consumed while the structure is not modified and never past the end; single goroutine, except intintmap-shared-counting (2-8 goroutines adding to one IntIntMap, accounting oracle sound for any schedule)",
             "NewIntSetArray / NewStringSetArray are only called with nil",
         ],
     },
@@ -165,7 +165,7 @@ CONFIG = {
         "rule": "C09: one generated operation history per case for each of the 13 linked map/set types over every public method, against a slice-ordered dictionary model with bound and put modes; full enumerations compared after every step.",
         "groups": [G("c09", shards={"quick": 4, "thorough": 16}, timeout={"quick": 400, "thorough": 3000})],
         "assumptions": [
-            "single goroutine; capacity >= 1 where the constructor has no guard (capacity 0 only for IntKey and LongLong), capacity <= 200, load factor in {0.1..4}",
+            "single goroutine (except sort-is-one-operation and sorts-of-two-instances, whose verdicts hold for any schedule); capacity >= 1 where the constructor has no guard (capacity 0 only for IntKey and LongLong), capacity <= 200, load factor in {0.1..4}",
             "comparators are strict total orders; interface values are non-nil ints or strings; floats contain no NaN",
             "enumerators are consumed only up to the end and not across mutations; first/last on an empty structure must only not panic",
             "'no value' means NONE or 0 for numeric APIs and nil, \"\" or 0 for interface APIs",
